@@ -198,6 +198,22 @@ def native_part(art, tier, stats, fnd):
                         ("empty_file", {"main.sy": ""}), ("no_trailing_newline", {"main.sy": "start :: fn do end"}), ("only_comment", {"main.sy": "// nothing"}), ("nul_byte", {"main.sy": "start :: fn do\n\0\nend\n"})]:
         st, dt, out = native_run(art["sylt"], files); n += 1
         if st != "ok": fnd.report("native-%s:%s" % (st, name), "%s: %s %s" % (name, st, out.replace("\n", " ")[-200:]), files)
+    # how `start` is bound in the main file (alias, namespace, import) and odd path arguments
+    for name, files in [("start_is_alias_of_import", {"main.sy": "from other use run as start\n", "other.sy": "run :: fn do end\n"}), ("start_is_namespace", {"main.sy": "use start\n", "start.sy": "x :: 1\n"}),
+                        ("start_is_namespace_alias", {"main.sy": "use other as start\n", "other.sy": "x :: 1\n"}), ("start_imported_by_name", {"main.sy": "from other use start\n", "other.sy": "start :: fn do end\n"}),
+                        ("start_is_self_import_alias", {"main.sy": "from main use run as start\nrun :: fn do end\n"}), ("start_is_blob", {"main.sy": "start :: blob {\n    a: int,\n}\n"}), ("start_is_int", {"main.sy": "start :: 1\n"}),
+                        ("start_is_enum", {"main.sy": "Start :: enum\n    A,\nend\nstart :: Start.A\n"}), ("start_takes_argument", {"main.sy": "start :: fn a: int do end\n"}), ("start_only_in_import", {"main.sy": "use other\n", "other.sy": "start :: fn do end\n"})]:
+        st, dt, out = native_run(art["sylt"], files); n += 1
+        if st != "ok": fnd.report("native-%s:%s" % (st, name), "%s: %s %s" % (name, st, out.replace("\n", " ")[-200:]), files)
+    d = tempfile.mkdtemp(prefix="c07p_", dir=common.SCRATCH)
+    try:
+        open(os.path.join(d, "main.sy"), "w").write("start :: fn do end\n"); os.makedirs(os.path.join(d, "dir.sy"))
+        for arg in ("", "/", ".", "..", "dir.sy", "nosuch.sy", "/nosuch/x.sy", "main.sy/", "./main.sy", "../" + os.path.basename(d) + "/main.sy", "main", "a\nb.sy"):
+            r = subprocess.run([art["sylt"], "-o", "out.lua", arg], cwd=d, capture_output=True, text=True, timeout=20); n += 1
+            out = r.stdout + r.stderr
+            if "panicked" in out or r.returncode not in (0, 1): fnd.report("native-panic:path-argument", "sylt -o out.lua %r: exit %d %s" % (arg, r.returncode, out.replace("\n", " ")[:200]), {"main.sy": "start :: fn do end\n"}, cmd="sylt -o out.lua %r" % arg)
+            elif r.returncode == 1 and "not found" not in out and "error" not in out.lower(): fnd.report("native-silent_failure:path-argument", "sylt -o out.lua %r: exit 1 without a rendered error" % arg, {"main.sy": "start :: fn do end\n"})
+    finally: shutil.rmtree(d, ignore_errors=True)
     # nesting probes (time growth)
     for kind, gen in [("nested_call_closures", lambda d: "a :: fn f do end\nstart :: fn do\n" + "a(fn do\n" * d + "end)\n" * d + "end\n"), ("nested_ifs", lambda d: "start :: fn do\n    x := 1\n" + "if x > 0 do\n" * d + "x = 2\n" + "end\n" * d + "end\n")]:
         first_slow = None
